@@ -803,7 +803,9 @@ func suiteC15(c *Ctx) {
 		for j := 0; j < cs.k; j++ {
 			cs.sinks = append(cs.sinks, newUDPSink())
 		}
-		if cs.multi && cs.k >= 2 && r.Chance(25) {
+		// (only in profiles without socket faults: which of the two sends to the shared sink a refused datagram belongs to
+		// cannot be told from what the sink holds)
+		if cs.multi && cs.k >= 2 && r.Chance(25) && (cs.profile == "clean" || cs.profile == "limit" || cs.profile == "oversize" || cs.profile == "close") {
 			// the same host:port listed twice (a copy-and-paste in a configuration): two destinations all the same
 			cs.sinks[cs.k-1].close()
 			cs.sinks[cs.k-1] = cs.sinks[0]
